@@ -506,6 +506,15 @@ def check(prop, tier, repo, seed, jobs):
     slowest.sort(reverse=True)
     level = "proof"
     explanation = None
+    # a property whose deciding check is a bounded stand-in is reported at the level MANIFEST.json claims for it (never `proof`)
+    try:
+        with open(os.path.join(HERE, "MANIFEST.json")) as mf:
+            claimed = {c["property_id"]: c["level_claimed"]["category"] for c in json.load(mf).get("checks", [])}
+        if claimed.get(prop) and claimed[prop] != "proof":
+            level = claimed[prop]
+            explanation = "the property itself is decided only by bounded stand-ins (see native_checks); the discharged obligations cover a supporting clause"
+    except (OSError, ValueError, KeyError):
+        pass
     if proof_lost or undecided:
         level = "other"
         explanation = "proof lost for: " + "; ".join("%s (%s) -> %s" % (u["target"], "; ".join(u["reasons"][:2]), "; ".join(u["stand_ins"]) or "nothing could decide it") for u in (proof_lost + undecided)[:10])
